@@ -1,6 +1,8 @@
 package checks
 
 import (
+	"path/filepath"
+	"os"
 	"fmt"
 	"sort"
 	"strings"
@@ -382,7 +384,68 @@ func c10Scale(kind, n int) core.Result {
 	return core.Okay(true, itoa(len(out)))
 }
 
+// c10History: what an earlier call on the same environment did does not reach the next include / embed.
+// kind 0: a partial served by the FilesystemLoader is rewritten (same length and modification time) or removed between
+// two executions; kind 1: n includes / embeds whose target fails at run time (at a nesting depth of d), then a good one.
+func c10History(kind, a, b int) core.Result {
+	if kind == 0 {
+		dir := fsFreshDir("c10fresh")
+		fsPut(dir, "part.twig", "one {{ x }}")
+		fsPut(dir, "base.twig", "B[{% block a %}b1{% endblock %}]")
+		fsPut(dir, "main.twig", []string{"<{% include 'part.twig' %}>", "<{% embed 'base.twig' %}{% endembed %}{% include 'part.twig' with {'x': 2} only %}>", "<{% for i in [1, 2] %}{% include 'part.twig' %}{% endfor %}>"}[a])
+		env := stick.New(stick.NewFilesystemLoader(dir))
+		ctx := map[string]stick.Value{"x": 1}
+		o1, e1, p1 := tryExec(env, "main.twig", ctx)
+		fsPut(dir, "part.twig", "two {{ x }}")
+		fsPut(dir, "base.twig", "B[{% block a %}b2{% endblock %}]")
+		if b == 1 {
+			os.Remove(filepath.Join(dir, "part.twig"))
+		}
+		o2, e2, p2 := tryExec(env, "main.twig", ctx)
+		if p1 != "" || p2 != "" || e1 != nil {
+			return core.Violation("error", fmt.Sprintf("filesystem include: %v %s %s", e1, p1, p2))
+		}
+		w1 := []string{"<one 1>", "<B[b1]one 2>", "<one 1one 1>"}[a]
+		w2 := []string{"<two 1>", "<B[b2]two 2>", "<two 1two 1>"}[a]
+		if b == 1 {
+			if e2 == nil {
+				return core.Violation("isolation", fmt.Sprintf("the included file was removed after the first execution, yet the same environment renders %q without error", o2))
+			}
+			return core.Okay(true, "removed")
+		}
+		if o1 != w1 || e2 != nil || o2 != w2 {
+			return core.Violation("isolation", fmt.Sprintf("include of a file rewritten between two executions (same length and modification time): %q, then %q (%v), want %q then %q", o1, o2, e2, w1, w2))
+		}
+		return core.Okay(true, o2)
+	}
+	tpls := map[string]string{"bad": "x{{ nofunc() }}", "good": "G{{ x }}", "base": "B[{% block a %}b{% endblock %}]",
+		"failing": []string{"{% include 'bad' %}", "{% embed 'bad' %}{% endembed %}", "{% include 'deep1' %}"}[b%3],
+		"ok":      "<{% include 'good' %}|{% embed 'base' %}{% block a %}o{{ x }}{% endblock %}{% endembed %}>"}
+	for d := 1; d <= 40; d++ {
+		next := "deep" + itoa(d+1)
+		if d == 40 {
+			next = "bad"
+		}
+		tpls["deep"+itoa(d)] = "{% include '" + next + "' %}"
+	}
+	env := stick.New(&stick.MemoryLoader{Templates: tpls})
+	ctx := map[string]stick.Value{"x": 7}
+	for i := 0; i < a; i++ {
+		if _, err, pan := tryExec(env, "failing", ctx); err == nil || pan != "" {
+			return core.Violation("error", fmt.Sprintf("%q: err=%v %s", tpls["failing"], err, pan))
+		}
+	}
+	out, err, pan := tryExec(env, "ok", ctx)
+	if pan != "" || err != nil || out != "<G7|B[o7]>" {
+		return core.Violation("isolation", fmt.Sprintf("after %d executions of %q on the same environment (each fails inside its target), %q renders %q (%v %s), want %q", a, tpls["failing"], tpls["ok"], out, err, pan, "<G7|B[o7]>"))
+	}
+	return core.Okay(true, out)
+}
+
 func c10Run(c core.Case) core.Result {
+	if c.Fam == "history" {
+		return c10History(c.N[0], c.N[1], c.N[2])
+	}
 	if c.Fam == "scale" {
 		return c10Scale(c.N[0], c.N[1])
 	}
@@ -444,6 +507,21 @@ func c10Levels(tier string) []core.Level {
 							}
 						}
 					}
+				}
+			}
+		}},
+		{Name: "histories on one environment: an included / embedded file rewritten (same length and modification time) or removed between two executions (FilesystemLoader); 1..130, 250 and 1000 executions whose include / embed fails inside its target (also 40 levels deep), then a good include and embed", Gen: func(emit func(core.Case)) {
+			for a := 0; a < 3; a++ {
+				for b := 0; b < 2; b++ {
+					emit(core.Case{Fam: "history", N: []int{0, a, b}})
+				}
+			}
+			for _, n := range append(seq(1, 130), 250, 1000) {
+				for b := 0; b < 3; b++ {
+					if b == 2 && n > 130 {
+						continue
+					}
+					emit(core.Case{Fam: "history", N: []int{1, n, b}})
 				}
 			}
 		}},
